@@ -186,6 +186,8 @@ def problem(draw, tier, premise=False, max_w=None, max_v=None):
             "vkind": draw(st.sampled_from(pr.VERTEX_KINDS)),
             # constraints given as instances of the caller's own subclasses
             "subcls": draw(st.integers(0, 4)) == 0,
+            # user-defined resources identified by equal but distinct objects
+            "fresh_ids": draw(st.integers(0, 4)) == 0,
             "seed": draw(st.integers(0, 10 ** 6))}
 
 
@@ -195,6 +197,7 @@ def build_problem(case):
     from rig.netlist import Net
     from rig.place_and_route.constraints import (
         LocationConstraint, SameChipConstraint, ReserveResourceConstraint)
+    pr._fresh = bool(case.get("fresh_ids"))
     machine = pr.build_machine(case["machine"])
     names = [v["name"] for v in case["vertices"]]
     vobj = pr.vertex_objects(names, case["vkind"])
